@@ -371,13 +371,29 @@ class Facts:
         ok = {dp for dp in new if not cyclic(dp)}
         self.helpers = ok
         import copy
+        counter = [0]
 
         def graft_into(root, owner):
             for n in list(walk(root)):
                 if n.get("k") in ("Call", "MethodCall") and "inlined" not in n:
                     c = callee(n)
                     if c in ok and c != owner:
-                        n["inlined"] = copy.deepcopy(new[c]["body"])   # one copy per call site (parent maps are keyed by node identity)
+                        cp = copy.deepcopy(new[c]["body"])   # one copy per call site (parent maps are keyed by node identity)
+                        # local ids are per function: keep the helper's locals apart from the caller's (and from other copies)
+                        ren = {}
+
+                        def fresh(i_):
+                            if i_ not in ren:
+                                counter[0] += 1
+                                ren[i_] = 10000000 + counter[0]
+                            return ren[i_]
+                        for m in walk(cp):
+                            if m.get("p") == "Bind" and isinstance(m.get("id"), int):
+                                m["id"] = fresh(m["id"])
+                            r_ = m.get("res")
+                            if isinstance(r_, dict) and r_.get("r") == "local" and isinstance(r_.get("id"), int):
+                                r_["id"] = fresh(r_["id"])
+                        n["inlined"] = cp
         # callees first, so that a copied helper body already carries the bodies of the helpers it calls
         done = set()
 
@@ -395,6 +411,10 @@ class Facts:
             if "::tests::" in b["def_path"] or b["def_path"] in ok:
                 continue
             graft_into(b["body"], b["def_path"])
+        # whole-crate iterations (`for b in fx.body_list`) meet a helper's code at its call sites only; the helper itself stays available by
+        # def-path (self.bodies) for the symbolic evaluator, which inlines it
+        self.all_bodies = list(self.body_list)
+        self.body_list = [b for b in self.body_list if b["def_path"] not in ok]
 
     # ---- anchors (fail closed)
     def fn(self, suffix, impl_self=None, impl_trait=None):
